@@ -1,8 +1,8 @@
 --------------------------- MODULE Trace_Discovery ---------------------------
 (* Trace validation of whole nodes against Discovery.tla (harness/e2e/zz_verif_disc_test.go).                      *)
 (*  {"ev":"reset", "amlh":[..], "lhs":[[n,l]..], "hostile":[..], "deny":[[n,u]..], "denyPeer":[[n,x,u]..],          *)
-(*   "static":[[n,x,u]..], "adv":[[n,u]..], "respond":[..]}        a new world: the configuration the rules read   *)
-(*  {"ev":"Step", "n":node, "stim":{k,from,src,mt,x,addrs}, "tuns":[..], "pend":[..],                               *)
+(*   "static":[[n,x,u]..], "adv":[[n,u]..], "respond":[..], "strict":bool}  a new world: the configuration the rules read *)
+(*  {"ev":"Step", "n":node, "stim":{k,from,src,mt,x,addrs,fresh}, "tuns":[..], "pend":[..],                         *)
 (*   "known":[[x,o,kind,u]..], "out":[{k,to,peer,mt,x,addrs}..]}   one stimulus handled to quiescence by node n:   *)
 (*   its tunnels, pending handshakes and address table AFTER the step and everything it emitted                   *)
 (* Deterministic given the log: one state per consumed line, every logged field is bound.                          *)
@@ -13,10 +13,10 @@ VARIABLE l
 tvars == <<vars, l>>
 
 SetOfSeq(s) == {s[i] : i \in 1..Len(s)}
-NoCfg == [amlh |-> {}, lhs |-> {}, hostile |-> {}, deny |-> {}, denyPeer |-> {}, static |-> {}, adv |-> {}, respond |-> {}]
+NoCfg == [amlh |-> {}, lhs |-> {}, hostile |-> {}, deny |-> {}, denyPeer |-> {}, static |-> {}, adv |-> {}, respond |-> {}, strict |-> FALSE]
 CfgOf(e) == [amlh |-> SetOfSeq(e.amlh), lhs |-> SetOfSeq(e.lhs), hostile |-> SetOfSeq(e.hostile), deny |-> SetOfSeq(e.deny),
-             denyPeer |-> SetOfSeq(e.denyPeer), static |-> SetOfSeq(e.static), adv |-> SetOfSeq(e.adv), respond |-> SetOfSeq(e.respond)]
-StimOf(e) == [k |-> e.stim.k, from |-> e.stim.from, src |-> e.stim.src, mt |-> e.stim.mt, x |-> e.stim.x, addrs |-> SetOfSeq(e.stim.addrs), alist |-> e.stim.addrs]
+             denyPeer |-> SetOfSeq(e.denyPeer), static |-> SetOfSeq(e.static), adv |-> SetOfSeq(e.adv), respond |-> SetOfSeq(e.respond), strict |-> e.strict]
+StimOf(e) == [k |-> e.stim.k, from |-> e.stim.from, src |-> e.stim.src, mt |-> e.stim.mt, x |-> e.stim.x, addrs |-> SetOfSeq(e.stim.addrs), alist |-> e.stim.addrs, fresh |-> e.stim.fresh]
 
 TraceInit == l = 1 /\ StartState(NoCfg) /\ known = [n \in Nodes |-> {}]
 IsEvent(e) == l <= Len(Log) /\ Log[l].ev = e /\ l' = l + 1
@@ -29,7 +29,7 @@ TraceReset ==
        /\ known' = [n \in Nodes |-> {<<q[2], n, "rep", q[3]>> : q \in {r \in c.static : r[1] = n /\ <<n, r[3]>> \notin c.deny /\ <<n, r[2], r[3]>> \notin c.denyPeer}}]
        /\ tuns' = [n \in Nodes |-> {}] /\ pend' = [n \in Nodes |-> {}]
        /\ wanted' = [n \in Nodes |-> {}] /\ resp' = [n \in Nodes |-> {}] /\ asked' = [n \in Nodes |-> {}] /\ ever' = [n \in Nodes |-> {}]
-       /\ sched' = [n \in Nodes |-> EmptyBag]
+       /\ sched' = [n \in Nodes |-> EmptyBag] /\ refused' = [n \in Nodes |-> {}]
 
 \* a line the rules do not permit is not consumed; the first violated rule is printed for tools/props/_disc.py
 TraceStep ==
